@@ -16,7 +16,8 @@ RULE = (
     "new*Vector kind x target vector kind mismatch incl. Light targets, invalid switch / number / base64 text, wrong, non-numeric or "
     "missing BLOB size and format, no children, duplicate children, valid and unknown elements mixed, absent values, message kinds "
     "a client should not send - also def*/set*Vector naming elements the property does not have -, getProperties/enableBLOB for unknown targets) x every target vector kind x every insertion position "
-    "in a session of valid traffic x transport {TCP handler, TTY handler, direct Router.process_message}; 'values' lets Hypothesis "
+    "in a session of valid traffic x transport {TCP handler, TTY handler, direct Router.process_message} x delivery of the hostile "
+    "message {one read; two reads cut after the first '>' or 3 characters before the end (TCP); one line per element (TTY)}; 'values' lets Hypothesis "
     "fill names, values and positions. A second driver of the same server snoops on the target device (Driver.snoop_device), so "
     "whatever a hostile client makes the router forward also reaches a mirror inside the server process. Oracle: nothing escapes message handling; the sender is still registered with its writer "
     "open and its handler task running; device snapshots differ from before only at validly named elements and only to the "
@@ -175,7 +176,19 @@ def run_case(case):
             peer = s.connect(transport)
         counter = [0]
 
-        def send(xml_text):
+        def send(xml_text, split=None):
+            if split and transport == "tcp":
+                # the message arrives in two reads: "gt1" = the first read ends right after the first '>',
+                # "late" = only the last 3 characters come with the second read
+                k = (xml_text.index(">") + 1) if split == "gt1" else len(xml_text) - 3
+                if 0 < k < len(xml_text):
+                    peer.send(xml_text[:k])
+                    peer.send(xml_text[k:])
+                    return
+            if split and transport == "tty":
+                # a terminal delivers lines: the message is spread over several of them
+                peer.send(xml_text.replace("><", ">\n<"))
+                return
             if transport == "direct":
                 msg = IndiMessage.from_string(xml_text)
 
@@ -204,7 +217,7 @@ def run_case(case):
         before = s.snapshot()
         where = f"{transport} at={at}: {case['hostile'][:200]!r}"
         try:
-            send(case["hostile"])
+            send(case["hostile"], case.get("split"))
         except Failure:
             raise
         except Exception as e:  # noqa
@@ -301,7 +314,8 @@ def check_block(case):
     counts = {}
     for entry, xml, allowed, accepts in catalogue(case["target"]):
         for at in range(len(VALID_STEPS) + 1):
-            sub = {"transport": case["transport"], "hostile": xml, "allowed": {"/".join(k): v for k, v in allowed.items()}, "accepts": accepts, "at": at, "entry": entry, "target": case["target"]}
+          for split in {"tcp": (None, "gt1", "late"), "tty": (None, "lines"), "direct": (None,)}[case["transport"]]:
+            sub = {"transport": case["transport"], "hostile": xml, "allowed": {"/".join(k): v for k, v in allowed.items()}, "accepts": accepts, "at": at, "entry": entry, "target": case["target"], "split": split}
             try:
                 r = run_case(sub)
             except Failure as f:
@@ -334,7 +348,7 @@ def generated_hostile(draw):
             text = draw(st.sampled_from([VALID[k], "Off", "On", "1:30", "-0:30:00", "1e3", "x", None, "9" * 30, "1e999", "-1e400", "1e308", "9" * 400, "0.000000000000000000001", "1e-400"]) | gen.stripped_text(3))
             children.append(one(k, draw(el_st), text))
     xml = newvec(k, draw(name_st), draw(vec_st), children)
-    return {"transport": draw(st.sampled_from(["tcp", "tty", "direct"])), "hostile": xml, "allowed": {"*": "*"}, "accepts": False, "at": draw(st.integers(0, 4))}
+    return {"transport": draw(st.sampled_from(["tcp", "tty", "direct"])), "hostile": xml, "allowed": {"*": "*"}, "accepts": False, "at": draw(st.integers(0, 4)), "split": draw(st.sampled_from([None, None, "gt1", "late", "lines"]))}
 
 
 def check_generated(case):
@@ -361,6 +375,6 @@ def blocks():
 
 
 def run(ctx):
-    cnt = ctx.each("catalogue", blocks(), check_block, stop_after=8, timeout=900)
+    cnt = ctx.each("catalogue", blocks(), check_block, stop_after=8, timeout=150)
     ctx.exhaustive["catalogue"] = {"complete": True, "n_blocks": cnt, "bound": "every catalogue entry x 5 target kinds x every insertion position x 3 transports"}
     ctx.hyp("values", generated_hostile(), check_generated, ctx.scale(150, 4000))
